@@ -216,12 +216,24 @@ def run_case(case):
             other = path + ".other"
             first = data[: max(1, data.size // 2)].copy() if rng.random() < .5 else rs.bin_table(rng, nrows=2)
             sfile.write(other, first, header={"first_file": "yes", "n": 7})
-            if rng.random() < .5:
+            how = int(rng.integers(0, 3))
+            if how == 0:
                 sf = sfile.SFile(other, "r+")
                 sf.write(first)
-            else:
+            elif how == 1:
                 sf = sfile.SFile(other)
                 sf.read()
+            else:
+                # the object's previous open() failed after the header had been read: a file that says it holds 0 rows
+                raw0 = open(other, "rb").read()
+                i0 = raw0.find(b"\n")
+                open(other, "wb").write(b"SIZE = %20d" % 0 + raw0[i0:])
+                sf = sfile.SFile()
+                try:
+                    sf.open(other)
+                    sf.close()
+                except Exception:
+                    pass
             if rng.random() < .5:
                 sf.close()
             sf.open(path, "w")
@@ -238,6 +250,15 @@ def run_case(case):
                 rf.write(data)
         else:
             recfile.write(path, data)
+        if wroute in ("sfile.write", "SFile.write", "io.write", "SFile.reused") and rng.random() < .3:
+            # an append the file must refuse (other fields): the refusal must leave the file as it is - the readers below
+            # then see the rows and the row count of what was written
+            try:
+                sfile.write(path, rs.bin_table(rng, nrows=3, nfields=int(len(data.dtype.names) + 1)), append=True)
+                refused = False
+            except Exception:
+                refused = True
+            COL.info["refused_appends"] = COL.info.get("refused_appends", 0) + int(refused)
     except Exception as e:
         COL.violation("C01.file", "%s raised %s: %s" % (wroute, type(e).__name__, str(e)[:200]), wit, key=_key_for(layout, None, None))
         return
